@@ -15,7 +15,8 @@ TExit == IsEv("exit") /\ inCb' = inCb - 1 /\ UNCHANGED closing
 TRead == /\ IsEv("read")
          /\ (ev.saw => (ev.bytes /\ ev.prot = "RO" /\ ev.prot2 = "RO"))     \* whoever got into the callback saw the original bytes through read-only pages
          /\ (ev.ok => ev.saw)
-         /\ (~ev.ok => closing)                          \* an error only once a Close has begun (a nested reader may hit it after the outer one got in)
+         /\ (~ev.ok => (closing \/ ev.fault))           \* an error only once a Close has begun (a nested reader may hit it after the outer one got in)
+                                                         \* or when the harness made this reader's re-protection fail (C12: the error is reported)
          /\ UNCHANGED <<closing, inCb>>
 \* every Close call returns only when no reader is in flight any more and the secret is gone (Close waits for in-flight readers)
 TClose == IsEv("close") /\ ev.ok /\ ev.closed /\ inCb = 0 /\ UNCHANGED <<closing, inCb>>
